@@ -29,7 +29,8 @@ struct ProbeDriver {
   kb_end: bool, ended: bool,
   tablet: bool, just_switched: bool,
   interrupted_once: bool,
-  fail_at: Option<usize>, calls: usize, failed: bool, spun: bool,
+  fail_at: Option<usize>, calls: usize, failed: bool, spun: bool, check_all_up: bool,
+  phys: BTreeSet<KeyCode>, absorbable: BTreeSet<KeyCode>,      // keys physically down as far as the mapper was told (independent of the mapper); keys some mapping may absorb
   log: Vec<String>,
   violations: Vec<(String, String)>,                          // (property, what)
   // reference
@@ -45,6 +46,10 @@ impl ProbeDriver {
   fn tick(&mut self, what: &str, entry: Instant) -> Result<(), String> {
     if self.failed { self.viol("C20", format!("driver call `{}` after an earlier driver call had failed", what)); }
     if self.ended { self.viol("C10", format!("driver call `{}` after the keyboard had reported end-of-device", what)); }
+    if what != "send" && self.check_all_up {
+      self.check_all_up = false;
+      if !self.out_held.is_empty() { let h = format!("{:?}", self.out_held); self.viol("C12", format!("after the tablet-mode change (and the write that followed it, if any) these keys are still down on the virtual keyboard: {}", h)); }
+    }
     if what != "send" {
       if let Some((b, o)) = self.pending.take() { self.viol(o.prop(), format!("the {} ({:?}) was not written: the next driver call is `{}`", o.name(), b, what)); }
       if let Some(rr) = &mut self.rep { if rr.open { rr.hi = entry + Duration::from_millis(rr.delay_ms as u64); rr.open = false; } }
@@ -60,7 +65,8 @@ impl ProbeDriver {
     Ok(())
   }
   fn deliver_kb(&mut self) {
-    let n = 1 + self.r.below(3);
+    // usually one to three events per readiness notification, now and then a burst (everything that is left)
+    let n = if self.r.below(6) == 0 { 64 } else { 1 + self.r.below(3) };
     for _ in 0..n { if let Some(e) = self.hist.pop_front() { self.kb_q.push_back(e); } }
   }
 }
@@ -139,12 +145,16 @@ impl Driver for ProbeDriver {
     let r = match self.kb_q.pop_front() { Some(e) => Next::One(e), None => { self.kb_notified = false; if self.kb_end { self.ended = true; Next::End } else { Next::Busy } } };
     self.log.push(format!("next_keyboard -> {:?}", r));
     if let Next::One(e) = &r { if !self.tablet {
+      // a key change, judged without the mapper: a press of a key that is up / a release of a key that is down (C11: "as long as no further key event arrives")
+      let (key, change) = match e { Pressed(k) => (*k, self.phys.insert(*k)), Released(k) => (*k, self.phys.remove(k)) };
       let out = self.refm.step(e.clone());
       if !out.events.is_empty() { self.pending = Some((out.events, Origin::Step)); }
       match out.repeat {
         ResultingRepeat::Repeating { keys, delay_ms, interval_ms } => { let t = Instant::now() + Duration::from_millis(delay_ms as u64); self.rep = Some(RefRepeat { keys, delay_ms, interval_ms, lo: t, hi: t, open: true }); },
         ResultingRepeat::Disabled => self.rep = None,
-        ResultingRepeat::NoChange => {}
+        // the reference mapper is the code under test: its "nothing changes" is believed only for events that are no key change (or for keys a mapping may have absorbed,
+        // which the mapper legitimately forgets before they are released)
+        ResultingRepeat::NoChange => { if change && !self.absorbable.contains(&key) { self.rep = None; } }
       }
       self.last_origin = Origin::Step;
     } }
@@ -158,7 +168,7 @@ impl Driver for ProbeDriver {
     let r = match self.tab_q.pop_front() { Some(on) => { self.tablet = on; self.just_switched = true; Next::One(if on { On } else { Off }) }, None => { self.tab_notified = false; Next::Busy } };
     self.log.push(format!("next_tablet -> {:?}", r));
     if let Next::One(_) = &r {
-      self.rep = None;
+      self.rep = None; self.check_all_up = true; self.phys.clear();
       let out = self.refm.release_all();
       if !out.is_empty() { self.pending = Some((out, Origin::Tablet)); }
       self.last_origin = Origin::Tablet;
@@ -184,6 +194,34 @@ impl Driver for ProbeDriver {
   }
 }
 
+
+// C14 ("... or runs without crashing"): the accepted layout is also run through the real per-device loop with a plain driver - one key event per
+// readiness notification, short time-outs slept through - and a panic anywhere (e.g. in the wake-up arithmetic on the repeat
+// values of the layout) is reported.  Used by loader_probe::check_c14.
+struct PlainDriver { hist: VecDeque<Event>, q: VecDeque<Event>, ticks: usize, calls: usize, longest: Option<Duration> }
+impl Driver for PlainDriver {
+  type PollRegistry = ();
+  fn register_poll(&mut self) -> Result<(), String> { Ok(()) }
+  fn poll(&mut self, _r: &mut (), timeout: Option<Duration>) -> Result<PollResult, String> {
+    self.calls += 1; if self.calls > 2000 { return Err("call budget".to_string()); }
+    if let Some(t) = timeout { if self.longest.map(|l| t > l).unwrap_or(true) { self.longest = Some(t); } }
+    // an honest clock: a time-out is reported only after the time asked for has really passed (short ones are slept through, at most twice in a row); otherwise the next key event arrives first
+    if let Some(t) = timeout { if t <= Duration::from_millis(3) && self.ticks < 2 { self.ticks += 1; thread::sleep(t); return Ok(PollResult::TimedOut); } }
+    self.ticks = 0;
+    if let Some(e) = self.hist.pop_front() { self.q.push_back(e); }
+    Ok(PollResult::DeviceEvent(vec![Device::Keyboard]))
+  }
+  fn next_keyboard(&mut self) -> Result<Next<Event>, String> { self.calls += 1; if self.calls > 2000 { return Err("call budget".to_string()); } Ok(match self.q.pop_front() { Some(e) => Next::One(e), None => if self.hist.is_empty() { Next::End } else { Next::Busy } }) }
+  fn next_tablet(&mut self) -> Result<Next<TableModeEvent>, String> { Ok(Next::Busy) }
+  fn send(&mut self, _evs: &Vec<Event>) -> Result<(), String> { Ok(()) }
+}
+/// runs the real loop; returns its result and the longest time-out it asked poll for
+pub fn run_plain(layout: &Layout, hist: &Vec<Event>) -> (Result<(), String>, Option<Duration>) {
+  let mut d = PlainDriver { hist: hist.iter().cloned().collect(), q: VecDeque::new(), ticks: 0, calls: 0, longest: None };
+  let r = do_remapping_loop_one_device(&mut d, layout.clone(), false).map(|_| ());
+  (r, d.longest)
+}
+
 const REP_KEYS: [KeyCode; 5] = [KeyCode::X, KeyCode::Y, KeyCode::LEFTSHIFT, KeyCode::RIGHTALT, KeyCode::A];
 
 /// run one seeded case; returns the violations found (property, what), the call log, the layout and the key history
@@ -204,7 +242,7 @@ fn run_case(seed: u64) -> (Vec<(String, String)>, Vec<String>, Layout, Vec<Event
   let fail_at = if r.below(3) == 0 { Some(1 + r.below(40)) } else { None };
   let now = Instant::now();
   let mut d = ProbeDriver { r, hist: hist.iter().cloned().collect(), wakeups_left: wakeups, kb_q: VecDeque::new(), tab_q: VecDeque::new(), kb_notified: false, tab_notified: false, kb_end: false, ended: false,
-                            tablet: false, just_switched: false, interrupted_once: false, fail_at, calls: 0, failed: false, spun: false, log: Vec::new(), violations: Vec::new(),
+                            tablet: false, just_switched: false, interrupted_once: false, fail_at, calls: 0, failed: false, spun: false, check_all_up: false, phys: BTreeSet::new(), absorbable: layout.mappings.iter().flat_map(|m| m.absorbing.iter().cloned()).collect(), log: Vec::new(), violations: Vec::new(),
                             refm: key_transforms::Mapper::for_layout(&layout), rep: None, pending: None, last_origin: Origin::Start, out_held: BTreeSet::new(), last_exit: now };
   let result = do_remapping_loop_one_device(&mut d, layout.clone(), false);
   d.log.push(format!("loop returned {:?}", result));
